@@ -102,8 +102,17 @@ def job_split_array(maxdim, mode):
             return SU.split_array(arr, f_sample_num=f, t_sample_num=t, f_trim=True, t_trim=True)
         return SU.split_array(arr)
     t0 = time.time()
-    with su_patches():
-        leaves = core.explore(run, pre, cap=3000)
+    try:
+        with su_patches():
+            leaves = core.explore(run, pre, cap=3000)
+        for leaf in leaves:
+            if leaf.kind == 'ok':
+                [tl.b for tl in leaf.value]
+    except (TypeError, AttributeError, ValueError) as e:
+        # the implementation uses array operations the symbolic-shape stand-in cannot express (it only slices);
+        # the element-level jobs (concrete shapes, symbolic tile sizes) carry the claim in that case
+        recs.append(note(f"{tag}: symbolic-shape stand-in not applicable to this implementation ({type(e).__name__}: {e}); see C19:split_array_elems"))
+        return recs
     conds = []
     nbad = 0
     y, x = z3.Ints('y x')
@@ -145,6 +154,72 @@ def job_split_array(maxdim, mode):
             recs.append(cex(f'C19:split_array:{mode}', 'tiles do not partition the array in row-major order / trimming does not keep exactly the full-size tiles', payload_arr(m, Hi, Wi, ti, fi, mode), name=name))
     r, _ = core.check(pre + [z3.Not(z3.Or(*conds))], timeout_ms=120000)
     recs.append(q(f"{tag}:split-complete", r, leaves=len(leaves), explore_s=round(time.time() - t0, 1)))
+    return recs
+
+
+def job_split_array_elems(Hc, Wc, mode):
+    """concrete array shape, every element its own symbol, tile sizes symbolic: whatever NumPy operations the
+    implementation uses (slicing, reshape, transpose, ...), the returned tiles are decided element by element"""
+    recs = []
+    tag = f"C19:split_array_elems:{(Hc, Wc, mode)}"
+    ti, fi = z3.Ints('t f')
+    t, f = Sym(z3.ToReal(ti), True), Sym(z3.ToReal(fi), True)
+    pre = [ti >= 1, ti <= Hc + 1, fi >= 1, fi <= Wc + 1]
+    D = np.empty((Hc, Wc), dtype=object)
+    pos = {}
+    for yy in range(Hc):
+        for xx in range(Wc):
+            D[yy, xx] = Sym(z3.Real(f'e_{yy}_{xx}'))
+            pos[id(D[yy, xx])] = (yy, xx)
+    D = D.view(npx.SymArr)
+
+    def run():
+        if mode == 'partition':
+            out = SU.split_array(D, f_sample_num=f, t_sample_num=t, f_shift=f, t_shift=t)
+        elif mode == 'trim':
+            out = SU.split_array(D, f_sample_num=f, t_sample_num=t, f_trim=True, t_trim=True)
+        else:
+            out = SU.split_array(D)
+        return [np.asarray(x) for x in out], core.concretize_int(t), core.concretize_int(f)
+    px = npx.NPProxy()
+    with shadow.patched_many([(SU, dict(np=px, **shadow.DEFAULT_BUILTINS))]):
+        leaves = core.explore(run, pre, cap=400)
+    conds, nbad = [], 0
+    for li, leaf in enumerate(leaves):
+        conds.append(leaf.cond())
+        base = pre + leaf.pc + leaf.side
+        name = f"{tag}:leaf{li}"
+        r0, m = core.check(base, timeout_ms=30000)
+        if r0 != 'sat':
+            continue
+        if leaf.kind == 'exc':
+            recs.append(q(name, 'sat', detail=repr(leaf.value)))
+            if nbad < 3:
+                nbad += 1
+                recs.append(cex('C19:split_array:raise', f'split_array raised {leaf.value!r}', dict(fn='split_array', H=Hc, W=Wc, t=int(str(m.eval(ti, model_completion=True))), f=int(str(m.eval(fi, model_completion=True))), mode=mode), name=name))
+            continue
+        tiles, tv, fv = leaf.value
+        if mode == 'defaults':
+            tv, fv = Hc, Wc
+        if mode == 'trim':
+            want = [[(r * tv + a, c * fv + b) for a in range(tv) for b in range(fv)] for r in range(Hc // tv) for c in range(Wc // fv)]
+            wshape = [(tv, fv)] * len(want)
+        else:
+            want, wshape = [], []
+            for r in range(0, Hc, tv):
+                for c in range(0, Wc, fv):
+                    want.append([(a, b) for a in range(r, min(r + tv, Hc)) for b in range(c, min(c + fv, Wc))])
+                    wshape.append((min(r + tv, Hc) - r, min(c + fv, Wc) - c))
+        got = [[pos.get(id(e)) for e in tl.flat] for tl in tiles]
+        ok = got == want and [tuple(tl.shape) for tl in tiles] == wshape
+        r, _ = core.check(base + [z3.BoolVal(not ok)], timeout_ms=30000)
+        recs.append(q(name, r, tiles=len(tiles), tile=(tv, fv)))
+        if r == 'sat' and nbad < 3:
+            nbad += 1
+            recs.append(cex(f'C19:split_array:{mode}:elements', f'{Hc}x{Wc} array, tiles {tv}x{fv}: the returned tiles are not the row-major partition (trim: exactly the full-size tiles): first tiles start at {[g[0] if g else None for g in got[:4]]}, expected {[w[0] for w in want[:4]]}',
+                            dict(fn='split_array', H=Hc, W=Wc, t=tv, f=fv, mode=mode), name=name))
+    r, _ = core.check(pre + [z3.Not(z3.Or(*conds))], timeout_ms=60000)
+    recs.append(q(f"{tag}:split-complete", r, leaves=len(leaves)))
     return recs
 
 
@@ -437,10 +512,14 @@ def main():
     md = 5 if not ck.thorough else 8
     global NMAX
     NMAX = 24 if not ck.thorough else 64
-    ck.bounds = dict(array_dims=f'1..{md}', pieces='<= 4 (thorough 9)', nchans=f'<= {NMAX}', real_file_configs=8)
+    ck.bounds = dict(array_dims=f'1..{md}', element_level_shapes='1x1, 2x2, 4x4, 2x6, 6x4, 3x5 (thorough + 6x6, 8x4, 1x7, 5x1), tile sizes symbolic 1..dim+1', pieces='<= 4 (thorough 9)', nchans=f'<= {NMAX}', real_file_configs=8)
     jobs = []
     for mode in ('partition', 'trim', 'defaults'):
         jobs.append(('job_split_array', (md if mode != 'trim' else min(md, 6), mode)))
+        for (Hc, Wc) in ((1, 1), (2, 2), (4, 4), (2, 6), (6, 4), (3, 5)) + (((6, 6), (8, 4), (1, 7), (5, 1)) if ck.thorough else ()):
+            if mode == 'defaults' and (Hc, Wc) not in ((2, 2), (3, 5)):
+                continue
+            jobs.append(('job_split_array_elems', (Hc, Wc, mode)))
     for desc in (True, False):
         for with_shift in (False, True):
             jobs.append(('job_split_waterfall', (desc, 4 if not ck.thorough else 9, with_shift, 'none')))
